@@ -16,6 +16,12 @@ TREE = {'top': ['clk', 'a', 'b'], 'top.u': ['a', 'q', 'r_valid', 'r_ready', 'w_v
 
 def gen_case(rng, cid):
     text, info = gen.simple_trace(rng, n=rng.randrange(2, 8), scopes=TREE)
+    if rng.random() < 0.3 and info['n'] >= 3:
+        # two samples with the same timestamp: still two indices, each with its own values
+        k = rng.randrange(1, info['n'] - 1)
+        old, new = '#%d\n' % info['ts'][k + 1], '#%d\n' % info['ts'][k]
+        if text.count(old) == 1:
+            text = text.replace(old, new)
     cmds = [['file', 't.vcd', text], ['load', 't.vcd', 'DEFAULT']]
     fr = gen.Frag(rng, {'DEFAULT': info})
     fr.allow_scoped = False      # ~/# inside a body are fixed to the scope captured at definition (covered below)
